@@ -11,7 +11,7 @@
 //! smaller signer family. An independent resolver written from the statement predicts success and
 //! the exact multiset of enforce calls (policy, rule id, context, authenticated signers).
 
-use soroban_sdk::auth::{Context, ContractContext, ContractExecutable, CreateContractHostFnContext};
+use soroban_sdk::auth::{Context, ContractContext, ContractExecutable, CreateContractHostFnContext, CreateContractWithConstructorHostFnContext};
 use soroban_sdk::testutils::{Address as _, Ledger as _};
 use soroban_sdk::xdr::{ScVal, SorobanAuthorizationEntry};
 use soroban_sdk::{Address, Bytes, BytesN, Env, IntoVal, Map, String as SString, Symbol, TryFromVal, Val, Vec as SVec};
@@ -48,6 +48,8 @@ enum Ctx {
     CallT1,
     CallT2,
     CreateW,
+    /// creation (with constructor) of a wasm hash no rule names: only Default rules apply
+    CreateOther,
 }
 
 #[derive(Clone, Copy, Debug, PartialEq, Eq)]
@@ -129,6 +131,11 @@ impl Inst {
                 executable: ContractExecutable::Wasm(self.wasm.clone()),
                 salt: BytesN::from_array(e, &[2u8; 32]),
             }),
+            Ctx::CreateOther => Context::CreateContractWithCtorHostFn(CreateContractWithConstructorHostFnContext {
+                executable: ContractExecutable::Wasm(BytesN::from_array(e, &[0x77u8; 32])),
+                salt: BytesN::from_array(e, &[3u8; 32]),
+                constructor_args: (5u32,).into_val(e),
+            }),
         }
     }
     fn valid(&self, v: Valid) -> Option<u32> {
@@ -194,7 +201,7 @@ impl Acc {
     fn resolve(rules: &[Rule], ctx: Ctx, supplied: &BTreeSet<usize>, ledger: u32, can: [bool; 2]) -> Option<(u32, BTreeSet<usize>, BTreeSet<usize>)> {
         let want = match ctx {
             Ctx::CallT1 => Some(CType::CallT1),
-            Ctx::CallT2 => None,
+            Ctx::CallT2 | Ctx::CreateOther => None,
             Ctx::CreateW => Some(CType::CreateW),
         };
         let live = |r: &&Rule| r.valid_until.map(|v| ledger <= v).unwrap_or(true);
@@ -376,7 +383,7 @@ impl Acc {
                     continue; // no rule can expire: the later ledger position is the same case
                 }
                 self.set_env(i, ledger, *can, *refuse);
-                for c in [Ctx::CallT1, Ctx::CallT2, Ctx::CreateW] {
+                for c in [Ctx::CallT1, Ctx::CallT2, Ctx::CreateW, Ctx::CreateOther] {
                     for sigs in &sig_maps {
                         run(&[c], *sigs, ledger, *can, *refuse)?;
                     }
@@ -395,7 +402,7 @@ impl Acc {
         ];
         for (can, refuse) in &flag_sets {
             self.set_env(i, i.base, *can, *refuse);
-            for a in [Ctx::CallT1, Ctx::CallT2, Ctx::CreateW] {
+            for a in [Ctx::CallT1, Ctx::CallT2, Ctx::CreateW, Ctx::CreateOther] {
                 for b in [Ctx::CallT1, Ctx::CallT2, Ctx::CreateW] {
                     if !self.thorough && a == b && a == Ctx::CallT2 {
                         continue;
